@@ -785,3 +785,26 @@ def dtd_declarations_override_builtin_prefixes(ctx: Ctx) -> None:
             continue
         ctx.ob("build_ns_map: the built-in prefixes are in the map before the DTD's own xmlns declarations are stored", not late, at=fi, node=cnode.ast, construct="declared prefixes win",
                msg="the built-in bindings are written after (over) the declared ones: a DTD that binds xlink / xs / xsi to another URI gets fields in the wrong namespace and its valid documents are rejected")
+
+
+@rule("C17.R6")
+def explicit_empty_namespace_is_kept(ctx: Ctx) -> None:
+    """DefinitionsMapper: a helper that is called with namespace="" (an explicitly unqualified SOAP child such as Fault/detail) does not treat
+    the argument by truthiness - `namespace or default` / `if namespace` would turn the empty namespace into the inherited one."""
+    mod = "xsdata.codegen.mappers.definitions"
+    callees: dict[str, FuncInfo] = {}
+    for f in ctx.repo.funcs_in(mod):
+        for c in calls_in(f.node):
+            for k in c.keywords:
+                if k.arg == "namespace" and isinstance(k.value, ast.Constant) and k.value.value == "":
+                    for h in ctx.res.resolve_call(f, c).funcs:
+                        callees[h.qual] = h
+    if not callees:
+        ctx.abstain('call sites passing namespace=""', at=ctx.repo.func(f"{mod}:DefinitionsMapper.build_envelope_fault"))
+        return
+    for q, h in sorted(callees.items()):
+        g = build_cfg(h.node)
+        bad = [t for t in g.nodes if t.kind == "test" and isinstance(t.ast, ast.Name) and t.ast.id == "namespace"]
+        bad += [x for x in walk_no_nested(h.node) if isinstance(x, ast.BoolOp) and any(isinstance(v, ast.Name) and v.id == "namespace" for v in x.values[:-1])]
+        ctx.ob(f"{q.split(':')[1]}: the namespace argument is not defaulted by truthiness (the empty string is a value)", not bad, at=h, node=getattr(bad[0], "ast", bad[0]) if bad else None, construct=f"namespace truthiness {h.name}",
+               msg='an explicit namespace="" falls back to the inherited namespace: Fault/detail becomes soapenv:detail and a real SOAP fault cannot be bound')
